@@ -351,7 +351,7 @@ pub fn run(tier: Tier) -> i32 {
         // (leading / trailing / only white space of every kind, raw and escaped)
         {
             let contents: Vec<&str> = vec![
-                "N", " N", "N ", " N ", "\tN", "N\t", "\\tN\\t", "N\\n", "\\u{a0}N\\u{a0}", "\u{a0}N\u{2003}", " ", "  ", "\\t", "\\u{20}", "a  b", "N // x", "// N", "N\u{3000}", "\u{feff}N",
+                "", "N", " N", "N ", " N ", "\tN", "N\t", "\\tN\\t", "N\\n", "\\u{a0}N\\u{a0}", "\u{a0}N\u{2003}", " ", "  ", "\\t", "\\u{20}", "a  b", "N // x", "// N", "N\u{3000}", "\u{feff}N",
                 "\\u{4e}", " \\u{4e} ", "n\\\\", "\\\"N\\\"", "ＮＡＭＥ ", "N\r",
             ];
             for c in &contents {
@@ -360,6 +360,8 @@ pub fn run(tier: Tier) -> i32 {
                     ("// c\n@name: \"{}\";\n// d\nx", vec!["c", "d"]),
                     ("@name: \"other\";\n@name: \"{}\";\nx", vec![]),
                     ("@name: (\"{}\");\n@description: \"{}\";\nx", vec![]),
+                    ("// c\n// d\n@description: \"{}\";\nx", vec!["c", "d"]),
+                    ("@description: \"{}\";\n@name: \"{}\";\n// c\nx\n// d", vec!["c", "d"]),
                 ] {
                     let text = tmpl.replace("{}", c);
                     check_raw_rule(&g, &text, &comments, "name-literal", &mut acc0);
